@@ -18,7 +18,7 @@ ASSUMPTIONS = [
 
 def run(tier, seed):
     rng = random.Random(seed)
-    n = int(os.environ.get("VERIF_N", 0)) or (55 if tier == "quick" else 1500)
+    n = int(os.environ.get("VERIF_N", 0)) or (55 if tier == "quick" else 250)
     k_pres = 4 if tier == "quick" else 8
     violations = []
     nonrec = {k: [] for k in C01.CF}; nonrec_meta = {k: [] for k in C01.CF}
@@ -43,7 +43,7 @@ def run(tier, seed):
             method = C01.METHODS[(i + 2 * p) % 3]
             ids = ["explicit", "implicit", "mixed"][p % 3]
             case = dict(spec=gen.spec_jsonable(spec), presentation=gen.spec_jsonable(spec2), names={"%s%d" % k: v for k, v in names.items()},
-                        semiring=repr(sr), method=method, ids=ids)
+                        perm=back.perm, semiring=repr(sr), method=method, ids=ids, recursive=recursive)
             import fggs
             try:
                 b = gen.build_fgg(spec2, sr.wconv, ids=ids, rng=rng, dtype=sr.torch_dtype(), names=names)
@@ -79,7 +79,7 @@ def run(tier, seed):
                 nonrec[sr.carrier()].append((gw, weights_wire(spec, sr), obs))
                 nonrec_meta[sr.carrier()].append(case)
             # viterbi on the presentation itself (weights must be <= 0 in log space; skip dup externals)
-            if p == 0 and "dup_ext" not in spec["features"] and all(v != "inf" and v <= 1 for w in spec["weights"].values() for v in gen.flat(w)):
+            if "dup_ext" not in spec["features"] and all(v != "inf" and v <= 1 for w in spec["weights"].values() for v in gen.flat(w)):
                 st = spec2["elabels"][spec2["start"]]["type"]
                 xi = [rng.randrange(spec2["nlabels"][nl]) for nl in st]
                 try:
@@ -125,8 +125,46 @@ def run(tier, seed):
     return cov, violations
 
 def replay(path):
-    print("re-run: bin/check C12 quick with the recorded seed; presentations are derived from the seed")
-    return 1
+    import fggs
+    r = json.load(open(path)); c = r["case"]
+    if "presentation" not in c or "perm" not in c:
+        print("this replay carries no presentation; re-run bin/check C12 quick with the recorded seed"); return 1
+    spec = gen.spec_from_json(c["spec"]); spec2 = gen.spec_from_json(c["presentation"])
+    names = {}
+    for k, v in c["names"].items():
+        names[(k[:2], int(k[2:]))] = v
+    back = gen.make_back(spec, c["perm"])
+    recursive = c.get("recursive", False)
+    configs = C02.CONFIGS2 if recursive else CONFIGS
+    sr = [x for x in configs if repr(x) == c["semiring"]][0]
+    method = c["method"]
+    b = gen.build_fgg(spec2, sr.wconv, ids=c.get("ids", "explicit"), rng=random.Random(0), dtype=sr.torch_dtype(), names=names)
+    raised = False; res = {}
+    with warnings.catch_warnings(record=True) as wl:
+        warnings.simplefilter("always")
+        try:
+            if recursive: res = fggs.sum_products(b.fgg, method=method, semiring=sr.semiring(), tol=1e-10 if sr.name in ("real", "log") else 1e-6, kmax=400)
+            else: res = fggs.sum_products(b.fgg, method=method, semiring=sr.semiring())
+        except ValueError as e:
+            if "not linearly recursive" not in str(e): raise
+            raised = True
+    warned = any("maximum iteration exceeded" in str(w.message) for w in wl)
+    out2 = {}
+    for i2, e in enumerate(spec2["elabels"]):
+        if e["term"] or b.els[i2] not in res: continue
+        if recursive and sr.name != "bool":
+            out2[i2] = [sr.obs(x, Fraction(1, 10**6), Fraction(1, 10**7)) for x in dense_list(res[b.els[i2]])]
+        else:
+            out2[i2] = [sr.obs(x) for x in dense_list(res[b.els[i2]])]
+    obs = sorted(back(out2).items())
+    gw = grammar_wire(spec)
+    if recursive:
+        v = (gw, weights_wire(spec, sr), (C01.METHODS.index(method), 3, Fraction(1, 10**6)), C02.K_ENCL, (raised, warned, (not warned) and (not raised), obs))
+        code = run_coq(C02.CF[sr.carrier()], [v], tag="replay")[0]
+    else:
+        code = run_coq(C01.CF[sr.carrier()], [(gw, weights_wire(spec, sr), obs)], tag="replay")[0]
+    print("observed (mapped back)", obs, "verdict code", code)
+    return 1 if code not in (0, 30) else 0
 
 MANIFEST = dict(
     level="proof",
